@@ -31,7 +31,10 @@ type c20obs struct {
 	lateReduce int // reductions that happened after AsyncMapReduce returned
 }
 
-func c20Harness(n, errMask int) explore.Harness {
+func c20Harness(n, errMask int) explore.Harness { return c20HarnessMsg(n, errMask, false) }
+
+// sameMsg: every failing item fails with the same message (errors are values, not a set)
+func c20HarnessMsg(n, errMask int, sameMsg bool) explore.Harness {
 	return func() (func(), func(*vrt.Sched) (string, string)) {
 		o := &c20obs{mapped: map[int]int{}, reduced: map[int]int{}}
 		body := func() {
@@ -44,6 +47,9 @@ func c20Harness(n, errMask int) explore.Harness {
 				vrt.Touch("map")
 				o.mapped[i]++
 				if errMask&(1<<i) != 0 {
+					if sameMsg {
+						return 0, errors.New("connection refused")
+					}
 					return 0, errors.New("e" + strconv.Itoa(i))
 				}
 				return i, nil
@@ -71,6 +77,27 @@ func c20Harness(n, errMask int) explore.Harness {
 			vrt.Touch("reducer")
 		}
 		check := func(s *vrt.Sched) (string, string) {
+			if sameMsg {
+				for i, e := range o.retErrs {
+					if e != "connection refused" {
+						return "returned error differs from the injected one: " + e, ""
+					}
+					o.retErrs[i] = ""
+				}
+				k := 0
+				for i := 0; i < n; i++ {
+					if errMask&(1<<i) != 0 {
+						if k < len(o.retErrs) {
+							o.retErrs[k] = "e" + strconv.Itoa(i)
+						}
+						k++
+					}
+				}
+				if k != len(o.retErrs) {
+					v := fmt.Sprintf("%d items failed (all with the same message), %d errors returned", k, len(o.retErrs))
+					return v, v
+				}
+			}
 			v := c20Verdict(n, errMask, s, o)
 			return v, v
 		}
